@@ -157,6 +157,28 @@ theorem peek16_shift (r : Rd) (k : Nat) : (r.shift k).peek16 = r.peek16 := by
 def Shifts {α : Type} (g : Rd → Except Err α × Rd) : Prop :=
   ∀ (k : Nat) (r : Rd), g (r.shift k) = ((g r).1, (g r).2.shift k)
 
+theorem rU8_total {r r' : Rd} {v : Nat} (h : r.rU8 = some (v, r')) :
+    r'.cnt + r'.rem.length = r.cnt + r.rem.length ∧ r.cnt ≤ r'.cnt := by
+  unfold Rd.rU8 at h
+  cases hr : r.readN 1 with
+  | none => simp [hr] at h
+  | some p =>
+    obtain ⟨b, r1⟩ := p
+    simp only [hr, Option.map_some, Option.some.injEq, Prod.mk.injEq] at h
+    have := readN_total hr
+    rw [← h.2]; omega
+
+theorem rU16_total {r r' : Rd} {v : Nat} (h : r.rU16 = some (v, r')) :
+    r'.cnt + r'.rem.length = r.cnt + r.rem.length ∧ r.cnt ≤ r'.cnt := by
+  unfold Rd.rU16 at h
+  cases hr : r.readN 2 with
+  | none => simp [hr] at h
+  | some p =>
+    obtain ⟨b, r1⟩ := p
+    simp only [hr, Option.map_some, Option.some.injEq, Prod.mk.injEq] at h
+    have := readN_total hr
+    rw [← h.2]; omega
+
 /-- a composite read is *prefix monotone*: on the truncated input it either reports a short read, or
 does exactly what it does on the extended input (same result, the tail `s` carried along) -/
 def Mono {α : Type} (g : Rd → Except Err α × Rd) : Prop :=
@@ -169,5 +191,17 @@ def Fatal (e : Option Err) : Prop := ∃ x, e = some x ∧ x.nonfatal = false
 theorem fatal_short : Fatal (some .short) := ⟨_, rfl, rfl⟩
 theorem fatal_fuel : Fatal (some .fuel) := ⟨_, rfl, rfl⟩
 theorem fatal_badSetLen : Fatal (some .badSetLen) := ⟨_, rfl, rfl⟩
+
+/-- `lookupElem` through the list view of the generated table.  Used only to evaluate `lookupElem`
+on concrete elements in examples: the kernel evaluates `List.find?` on the 400-entry table quickly
+and `Array.find?` very slowly.  (The theorems never unfold `lookupElem`.) -/
+theorem lookupElem_list (ent id : Nat) :
+    lookupElem ent id =
+      match Gen.InfoModelTbl.infoModelTbl.toList.find? (fun e => e.1 = ent ∧ e.2.1 = id) with
+      | some e => some (e.2.2.1, e.2.2.2)
+      | none => (extElems.find? (fun e => e.1 = ent ∧ e.2.1 = id)).map fun e => (e.2.2.1, e.2.2.2) := by
+  unfold lookupElem
+  rw [← Array.find?_toList]
+  rfl
 
 end Vflow
